@@ -96,6 +96,35 @@ def default_reader(nmax):
     return h
 
 
+def configured_max(newmax, blocked):
+    """the maximum record length is read from the configuration: raising it at run time must take effect"""
+    def h():
+        core.FUEL.set(newmax // 1012 + 6)
+        m = M().mciipm
+        cfg = M().config.config
+        old = cfg.get('MAX_VBS_RECORD_LENGTH', 6000)
+        n = sym_int('len0', 1, newmax)
+        rec = Source('rec0', 'b', n).rope()
+        rp = {'kind': 'configured_max', 'args': {'newmax': newmax, 'blocked': blocked, 'length': ev(n)}}
+        cfg['MAX_VBS_RECORD_LENGTH'] = newmax
+        try:
+            f = RopeFile()
+            w = m.VbsWriter(f, blocked=blocked)
+            w.write(rec)
+            w.close()
+            with guard('VbsReader', 'C03/configured-max', rp, allow=(m.MciIpmDataError,)):
+                try:
+                    got = list(m.VbsReader(f, blocked=blocked))
+                except m.MciIpmDataError as e:
+                    fail('record within the configured maximum refused', key='C03/configured-max', replay=rp)
+        finally:
+            cfg['MAX_VBS_RECORD_LENGTH'] = old
+        require(len(got) == 1, 'read %d records' % len(got), key='C03/configured-max', replay=rp)
+        req_eq(got[0], rec, 'record differs', key='C03/configured-max', replay=rp)
+        return {'sample': rp['args'], 'replay': rp}
+    return h
+
+
 def obligations(tier):
     q = tier == 'quick'
     obs = []
@@ -110,7 +139,10 @@ def obligations(tier):
     obs.append(Ob('default-reader/unblocked', default_reader(3000 if q else 6000), 300,
                   'one record of any length and any content (bytes at the offsets a blocking probe would inspect go through the peek table), '
                   'written and read back through the convenience functions with no options', _funcs))
+    obs.append(Ob('configured-max/8000/unblocked', configured_max(8000, False), 300,
+                  'MAX_VBS_RECORD_LENGTH raised to 8000 at run time, one record of every length 1..8000', _funcs))
     if not q:
+        obs.append(Ob('configured-max/8000/blocked', configured_max(8000, True), 600, 'same, 1014 blocked', _funcs))
         for blocked in (False, True):
             obs.append(Ob('rt3/%s/class' % ('blocked' if blocked else 'unblocked'), roundtrip([2500, 2500, 2500], blocked, 'class'), 900,
                           'three records, lengths 1..2500 each', _funcs))
